@@ -553,6 +553,7 @@ func TestC02_mutants(t *testing.T) {
 	}
 	col.SetExtra("extractors_covered", len(Registry()))
 	col.SetExtra("healthy_neighbour_pool", len(healthy()))
+	defer purgeTrees()
 	ev.Check(t, col, c02Checks(), genC02, propC02)
 	writeOutcomeTable(col)
 }
@@ -572,6 +573,14 @@ func superviseC02(t *testing.T) {
 	args := append([]string{}, os.Args[1:]...)
 	cmd := exec.Command(os.Args[0], args...)
 	cmd.Env = append(os.Environ(), "C02_WORKER=1", "C02_JOURNAL="+jf.Name())
+	if st, err := os.Stat("/dev/shm"); err == nil && st.IsDir() && os.Getenv("C02_FASTSCRATCH") == "" {
+		if fast, err := os.MkdirTemp("/dev/shm", "verif-c02-"); err == nil {
+			defer os.RemoveAll(fast)
+			cmd.Env = append(cmd.Env, "C02_FASTSCRATCH="+fast)
+			os.Setenv("C02_FASTSCRATCH", fast) // isolated re-runs started by the supervisor use it too
+			defer os.Unsetenv("C02_FASTSCRATCH")
+		}
+	}
 	var tail tailBuffer
 	cmd.Stdout = io.MultiWriter(os.Stdout, &tail)
 	cmd.Stderr = io.MultiWriter(os.Stderr, &tail)
